@@ -321,6 +321,77 @@ Proof.
   inversion H; subst er0. apply xto_struct_fold_err in Ho. destruct Ho as [Ho | Ho]; [discriminate | exact Ho].
 Qed.
 
+(* ---------- convertData keeps what the caller supplied ---------- *)
+Lemma xdflt_fold_lookup e : forall props (r : raw) k x,
+  alookup k r = Some x -> alookup k (fold_left (xdflt_step e) props r) = Some x.
+Proof.
+  induction props as [|np t IH]; intros r k x H; cbn [fold_left]; [exact H|]. apply IH.
+  unfold xdflt_step. destruct (amem (fst np) r); [exact H|].
+  destruct (p_default (snd np)) as [txt|]; [|exact H].
+  destruct (xdecode_default (xe_or e) (snd np) txt) as [d|]; [|exact H].
+  rewrite C17ObjectU.alookup_app, H. reflexivity.
+Qed.
+
+(* applySubObjectDefaultValues touches the entry of its own property only *)
+Lemma xsub_defaults_shape f e pid p (r r' : raw) :
+  xsub_defaults f e pid p r = Ok r' -> r' = r \/ exists d, r' = raw_set pid d r.
+Proof.
+  destruct f as [|f]; [discriminate|]. cbn [xsub_defaults].
+  destruct (xsub_object e (p_type p)) as [so | er | w |]; cbn [bind]; try discriminate.
+  destruct so as [[o e']|]; [|intros H; inversion H; left; reflexivity].
+  destruct o; try (intros H; inversion H; left; reflexivity).
+  destruct (match mapped with Some si => si_ptr si | None => false end); [intros H; inversion H; left; reflexivity|].
+  destruct (alookup pid r) as [d0|]; [destruct (is_str_any_map d0) as [kvs|]; [|intros H; inversion H; left; reflexivity]|];
+  (cbv beta iota;
+   match goal with |- (bind ?o _ = _ -> _) => destruct o as [data2 | | |] end; cbn [bind]; try discriminate;
+   destruct data2; intros H; inversion H; [left; reflexivity | right; eexists; reflexivity]).
+Qed.
+
+Lemma xsub_fold_lookup f e (r0 : raw) : forall props (a rd : raw) k x,
+  amem k r0 = true -> fold_left (xsub_step f e r0) props (Ok a) = Ok rd -> alookup k a = Some x -> alookup k rd = Some x.
+Proof.
+  induction props as [|np t IH]; intros a rd k x Hk H Hx; cbn [fold_left] in H.
+  - inversion H; subst; exact Hx.
+  - destruct (xsub_step f e r0 (Ok a) np) as [a1 | er | w |] eqn:Es.
+    + eapply IH; [exact Hk | exact H |]. unfold xsub_step in Es. cbn [bind] in Es.
+      destruct (amem (fst np) r0) eqn:Em.
+      * inversion Es; subst; exact Hx.
+      * apply xsub_defaults_shape in Es. destruct Es as [-> | (d & ->)]; [exact Hx|].
+        rewrite alookup_raw_set_other; [exact Hx|]. intro E. subst k. congruence.
+    + destruct (fold_bind_from_ok (fun (a : raw) (np : string * xproperty) =>
+                  if amem (fst np) r0 then Ok a else xsub_defaults f e (fst np) (snd np) a) t _ _ H) as (a1 & E).
+      discriminate E.
+    + destruct (fold_bind_from_ok (fun (a : raw) (np : string * xproperty) =>
+                  if amem (fst np) r0 then Ok a else xsub_defaults f e (fst np) (snd np) a) t _ _ H) as (a1 & E).
+      discriminate E.
+    + destruct (fold_bind_from_ok (fun (a : raw) (np : string * xproperty) =>
+                  if amem (fst np) r0 then Ok a else xsub_defaults f e (fst np) (snd np) a) t _ _ H) as (a1 & E).
+      discriminate E.
+Qed.
+
+Theorem xobj_data_supplied f e props mapped (r0 rd : raw) k x :
+  xobj_data f e props mapped r0 = Ok rd -> alookup k r0 = Some x -> alookup k rd = Some x.
+Proof.
+  unfold xobj_data. intros H Hx. pose proof (xdflt_fold_lookup e props r0 k x Hx) as H1.
+  destruct mapped as [si|]; [|inversion H; subst; exact H1].
+  eapply xsub_fold_lookup; [|exact H|exact H1]. unfold amem. rewrite Hx. reflexivity.
+Qed.
+
+(* (a) in the form "the raw map SUPPLIES for `name` a value the property type rejects" *)
+Corollary struct_unser_prop_error_supplied f e id un ps1 name p ps2 mapped t nl r rd x er :
+  Forall (fun kv => amem (fst kv) (ps1 ++ (name, p) :: ps2) = true) r ->
+  NoDup (map fst (ps1 ++ (name, p) :: ps2)) ->
+  xobj_data f e (ps1 ++ (name, p) :: ps2) mapped r = Ok rd ->
+  Forall (xprop_fine f e rd) ps1 ->
+  alookup name r = Some x -> p_disabled p = false ->
+  xunser f e (p_type p) x = Err er ->
+  xunser (S f) e (XObject id un (ps1 ++ (name, p) :: ps2) mapped) (obj_val t nl r) = Err (add_seg name er).
+Proof.
+  intros Hdecl Hnd Hd Hf Hx Hdis Hu.
+  apply (struct_unser_prop_error f e id un ps1 name p ps2 mapped t nl r rd x er Hdecl Hnd Hd Hf); try assumption.
+  exact (xobj_data_supplied f e _ mapped r rd name x Hd Hx).
+Qed.
+
 (* ================= Validate ================= *)
 
 Lemma xvfold_err f e si sv : forall l er,
